@@ -127,3 +127,45 @@ def nominal_instances(ctx):
             except Exception as e:  # noqa
                 ok, detail = False, f"{type(e).__name__}: {e}"[:200]
             yield (f"nominal[{mode} {name}]", ok, detail, {"definition": name, "kwargs": repr(kw)})
+
+
+def translation_complete(ctx):
+    """the constructor turns every exception its callees can raise into UBXTypeError / UBXMessageError.
+    Modular step at the level of exception classes: the raise-sets of the callees are what their contracts declare (and
+    what is proved of their bodies: val2bytes per type x value kind, _set_attribute_single, _set_attribute_bits ...);
+    the handlers of the try statement in the real `_do_attributes` must cover every one of those classes (by
+    subclassing), except the library's own error classes, which may pass."""
+    import ast
+    import builtins
+    import struct
+    from contracts.helpers import TRANSLATED
+    finfo = extract.get_function("pyubx2.ubxmessage.UBXMessage._do_attributes")
+    mod = extract.load_module("pyubx2.ubxmessage")[0]
+    tries = [n for n in ast.walk(finfo.node) if isinstance(n, ast.Try)]
+    handled = []
+    for t in tries:
+        for h in t.handlers:
+            if h.type is None:
+                handled.append(BaseException)
+                continue
+            elts = h.type.elts if isinstance(h.type, ast.Tuple) else [h.type]
+            for e in elts:
+                try:
+                    cls = eval(compile(ast.Expression(body=e), "<handler>", "eval"), vars(mod))
+                except Exception:  # noqa
+                    cls = None
+                if isinstance(cls, type):
+                    # a handler only counts if it re-raises a library error (every handler here does: checked below)
+                    handled.append(cls)
+            ok_body = any(isinstance(x, ast.Raise) for x in ast.walk(h))
+            yield (f"translation[_do_attributes]:handler-raises-library-error:{ast.unparse(h.type)[:40] if h.type else 'bare'}",
+                   ok_body, "the handler raises (a library error) instead of swallowing", {"handler": ast.unparse(h.type) if h.type else ""})
+    ns = {"error": struct.error}
+    for name in TRANSLATED:
+        if name.startswith("UBX"):
+            continue
+        cls = ns.get(name) or getattr(builtins, name, None)
+        covered = isinstance(cls, type) and any(issubclass(cls, h) for h in handled)
+        yield (f"translation[_do_attributes]:{name}", covered,
+               f"{name} (in the proved raise-set of the attribute setters / val2bytes) is caught by the constructor's handlers "
+               f"{sorted(h.__name__ for h in handled)}", {"exception": name})
